@@ -2,6 +2,9 @@ import Juniper.Proofs.ParDoFail
 import Juniper.Proofs.ParDoErr
 /-! Last invariants of the `parallel.Do` / `DoContext` LTS and the lemmas that turn the invariants into
 the statements of `Props/C13.lean`. -/
+set_option linter.unusedSimpArgs false
+set_option linter.unusedVariables false
+
 namespace Juniper.Proofs.ParDo
 open Juniper.Gen Juniper.Model.ParDo
 
